@@ -24,7 +24,7 @@ use std::{
     fmt,
     ops::{Deref, DerefMut},
 };
-use unicode_width::UnicodeWidthStr;
+use unicode_width::{UnicodeWidthChar, UnicodeWidthStr};
 
 mod cell;
 mod contacts;
@@ -543,7 +543,14 @@ impl CellBuffer {
                         acc
                     },
                 );
-                let escaped_unicode_width = escaped.width();
+                // the number of cells the escaped text occupies: the fillers that follow wide
+                // chars are cells of those chars already, every other char takes its display
+                // width and at least one cell
+                let escaped_unicode_width: usize = escaped
+                    .chars()
+                    .filter(|ch| *ch != '\0')
+                    .map(|ch| ch.width().unwrap_or(1).max(1))
+                    .sum();
                 let cell = Cell::new(*start as i32, line as i32);
                 escaped_text.push((cell, escaped));
                 no_escaped_text += &input_chars[index..*start].iter().fold(
